@@ -121,6 +121,10 @@ class MergeTable:
                     x = a.value if isinstance(a, ast.Starred) else a
                     if isinstance(x, ast.IfExp) and isinstance(x.orelse, ast.List) and x.orelse.elts:
                         kinds.append(self._kind(x.orelse.elts[0], env, inc_opt, sto_opt, facts))
+                    elif isinstance(x, ast.Call) and len(x.args) == 1 and not x.keywords and isinstance(x.args[0], ast.Name) \
+                            and isinstance(a, ast.Starred):
+                        # *helper(v): the members of v (v itself when it is not a union)
+                        kinds.append(self._kind(x.args[0], env, inc_opt, sto_opt, facts))
                     else:
                         kinds.append(self._kind(x, env, inc_opt, sto_opt, facts))
                 res = [self._resolve(k, inc_opt, sto_opt) for k in kinds]
